@@ -66,7 +66,10 @@ def _build(src):
         rng = random.Random(src["seed"])
         k = rng.randint(1, 3)
         S = rng.choice(["a", "ab", "ab"])
-        G = rng.choice(["X", "XY", "X$", "X", "XY", ["X", "XX", "Y"], ["a", "b", "ab"]])   # also stack symbols of several characters
+        G = rng.choice(["X", "XY", "X$"])
+        if src.get("multichar") and rng.random() < 0.3:
+            # stack symbols of several characters: legal through the API, NOT representable in the text format
+            G = rng.choice([["X", "XX", "Y"], ["a", "b", "ab"]])
         P, _ = U.random_pda(rng, k, S, G, ntrans=rng.randint(1, 7), eps=eps, prefix=rng.choice(["s", "q"]))
         return P
     if src["kind"] == "pda_nfa_like":
